@@ -17,26 +17,41 @@ def need(rel, src, pat, what=None, flags=re.S):
 
 
 def arm_none_all(rel, src, variant):
-    """In FieldSelector::select_for_segment: what the arm of `variant` does when the pruner returned None.
-    Returns 'empty' (return Vec::new()), 'all' (all zones of the segment) or 'inflight' (all zones only
-    while the segment is in flight, else none)."""
+    """In FieldSelector::select_for_segment, the arm of `variant`.  Returns (bypass, ops, fallback):
+    bypass   - True when the arm starts with `if !matches!(operation, Some(CompareOp::Eq)) { all zones }`
+               (the pruner is not consulted for an operator other than `=`);
+    ops      - the operators listed in `else if matches!(operation, ...) { all zones }` after the pruner
+               answered None;
+    fallback - what the final else does with a None: 'empty' (return Vec::new()), 'all', or 'inflight'
+               (all zones only while the segment is in flight, else none)."""
     m = need(rel, src, r"IndexStrategy::" + variant + r"[^=]*=>\s*\{(.*?)\n                \}", f"arm {variant}")
-    body = m.group(1)
-    if "if let Some(z)" not in body:
-        raise Missing(f"{rel}: arm {variant}: expected `if let Some(z) = ...`")
-    els = body.split("} else", 1)
-    if len(els) != 2:
-        raise Missing(f"{rel}: arm {variant}: no else branch")
-    rest = els[1]
+    body = re.sub(r"//[^\n]*", "", m.group(1))
+    allz = r"candidate_zones\s*=\s*collect_zones_for_scope\(self\.qplan, self\.caches, segment_id, Some\(uid\)\);"
+    bypass = False
+    mb = re.match(r"\s*if !matches!\(operation, Some\(CompareOp::Eq\)\) \{\s*" + allz + r"\s*\} else (if let Some\(z\).*)$", body, re.S)
+    if mb:
+        bypass = True
+        body = mb.group(1)
+    mp = re.match(r"\s*if let Some\(z\) = self\.\w+\.\w+\(&args\) \{\s*candidate_zones = z;\s*\} else (.*)$", body, re.S)
+    if not mp:
+        raise Missing(f"{rel}: arm {variant}: expected `if let Some(z) = <pruner>(&args) {{ candidate_zones = z; }} else ...`")
+    rest = mp.group(1)
+    ops = []
+    mo = re.match(r"if matches!\(operation, ([^)]*(?:\)[^)]*)*?)\) \{\s*" + allz + r"\s*\} else (.*)$", rest, re.S)
+    if mo:
+        ops = re.findall(r"Some\(CompareOp::(\w+)\)", mo.group(1))
+        if not ops:
+            raise Missing(f"{rel}: arm {variant}: operator list of the None fallback not understood")
+        rest = mo.group(2)
     if "is_segment_inflight" in rest:
         tail = rest.split("} else {")[-1]
-        if "return Vec::new()" in tail:
-            return "inflight"
+        if "return Vec::new()" in tail and "collect_zones_for_scope" in rest.split("} else {")[0]:
+            return bypass, ops, "inflight"
         raise Missing(f"{rel}: arm {variant}: unrecognised in-flight fallback")
-    if "return Vec::new()" in rest and "create_all_zones" not in rest and "collect_zones_for_scope" not in rest:
-        return "empty"
-    if "create_all_zones" in rest or "collect_zones_for_scope" in rest:
-        return "all"
+    if re.fullmatch(r"\{\s*return Vec::new\(\);\s*\}\s*", rest):
+        return bypass, ops, "empty"
+    if re.fullmatch(r"\{\s*(" + allz + r"|candidate_zones\s*=\s*CandidateZone::create_all_zones_for_segment_from_meta_cached\([^;]*\);)\s*\}\s*", rest, re.S):
+        return bypass, ops, "all"
     raise Missing(f"{rel}: arm {variant}: unrecognised None fallback")
 
 
@@ -73,10 +88,17 @@ def gen(out):
     if len(ms) != 2 or len(set(ms)) != 1:
         raise Missing(f"{rel}: from_timestamps(.., stride, ..) twice with one stride, got {ms}")
     out.append(f"Definition zidx_stride : Z := {num(ms[0])}%Z.")
-    n = len(re.findall(r"if min_ts >= 0 && max_ts >= 0 \{", src))
-    if n != 2:
-        raise Missing(f"{rel}: expected the `min_ts >= 0 && max_ts >= 0` calendar guard twice, found {n}")
-    out.append("Definition zidx_cal_requires_nonneg : bool := true.")
+    # calendar range of a zone, separately for the fixed `timestamp` column and for payload fields:
+    # mode 0 = only when min_ts >= 0 && max_ts >= 0 (else the zone is left out), 1 = always, clamped at 0
+    for key, coq in ((r'"timestamp"\.to_string\(\)', "zidx_cal_mode_ts"), (r"field\.clone\(\)", "zidx_cal_mode_field")):
+        ent = r"let entry = calendars\s*\.entry\(" + key + r"\)\s*\.or_insert_with\([^;]*;\s*"
+        if re.search(r"if min_ts >= 0 && max_ts >= 0 \{\s*" + ent + r"entry\.add_zone_range\(zp\.id, min_ts as u64, max_ts as u64\);\s*\}", src):
+            mode = 0
+        elif re.search(ent + r"entry\.add_zone_range\(zp\.id, min_ts\.max\(0\) as u64, max_ts\.max\(0\) as u64\);", src):
+            mode = 1
+        else:
+            raise Missing(f"{rel}: calendar range of the {coq} branch (guarded or clamped add_zone_range)")
+        out.append(f"Definition {coq} : N := {mode}%N. (* 0 = only non-negative zones, 1 = always, clamped at 0 *)")
     rel = "src/engine/core/time/zone_temporal_index.rs"
     src = read(rel)
     need(rel, src, r"\.map\(\|&t\| \(\(t - min_ts\) / stride\)\.max\(0\) as u64\)", "from_timestamps key formula")
@@ -85,11 +107,16 @@ def gen(out):
     # ---- temporal pruner: literal handling and operators
     rel = "src/engine/core/zone/selector/pruner/temporal_pruner.rs"
     src = read(rel)
-    need(rel, src, r"ScalarValue::Int64\(i\) => \(\*i\)\.max\(0\) as u64,\s*ScalarValue::Timestamp\(t\) => \(\*t\)\.max\(0\) as u64,", "integer literal clamp")
-    need(rel, src, r"parse_str_to_epoch_seconds\(s, TimeKind::DateTime\)\s*\{\s*parsed\.max\(0\) as u64\s*\} else \{\s*s\.parse::<u64>\(\)\.ok\(\)\.unwrap_or\(0\)", "string literal: time, else u64, else 0")
+    # the literal's instant stays signed; only the calendar lookup is clamped at 0; a string that is not a time
+    # literal is probed as i64::MIN; other kinds as 0
+    need(rel, src, r"let ts: i64 = match value \{\s*ScalarValue::Int64\(i\) => \*i,\s*ScalarValue::Timestamp\(t\) => \*t,", "integer literal kept signed")
+    need(rel, src, r"match TimeParser::parse_str_to_epoch_seconds\(s, TimeKind::DateTime\) \{\s*Some\(parsed\) => parsed,(?:\s*//[^\n]*)*\s*None => i64::MIN,", "string literal: time, else i64::MIN")
     need(rel, src, r"_ => 0,\s*\};", "other literal kinds -> 0")
-    out.append("Definition zidx_clamp_negative : bool := true.")
-    need(rel, src, r"CompareOp::Gt => zti\.max_ts > ts as i64,\s*CompareOp::Gte => zti\.max_ts >= ts as i64,\s*CompareOp::Lt => zti\.min_ts < ts as i64,\s*CompareOp::Lte => zti\.min_ts <= ts as i64,", "per-zone overlap tests")
+    need(rel, src, r"let cal_ts: i64 = ts\.max\(0\);", "calendar lookup clamped at 0")
+    if len(re.findall(r"cal\.zones_intersecting\((?:CompareOp::Eq|cmp), cal_ts\)", src)) != 4 or "ts as i64" in src:
+        raise Missing(f"{rel}: the four calendar lookups use cal_ts")
+    need(rel, src, r"if zti\.contains_ts\(ts\) \{", "per-zone equality test on the signed instant")
+    need(rel, src, r"CompareOp::Gt => zti\.max_ts > ts,\s*CompareOp::Gte => zti\.max_ts >= ts,\s*CompareOp::Lt => zti\.min_ts < ts,\s*CompareOp::Lte => zti\.min_ts <= ts,", "per-zone overlap tests")
     handles_neq = bool(re.search(r"CompareOp::Neq\s*(\||=>)", src))
     need(rel, src, r"_ => \{\}\s*\}\s*None\s*\}", "other operators -> None")
     out.append(f"Definition zidx_temporal_handles_neq : bool := {'true' if handles_neq else 'false'}.")
@@ -137,5 +164,11 @@ def gen(out):
              ("EnumBitmap", "zidx_sel_enum"), ("ZoneXorIndex", "zidx_sel_zxf"), ("XorPresence", "zidx_sel_xf")]
     code = {"empty": 0, "all": 1, "inflight": 2}
     for variant, coq in names:
-        k = arm_none_all(rel, src, variant)
+        bypass, ops, k = arm_none_all(rel, src, variant)
         out.append(f"Definition {coq}_none : N := {code[k]}%N. (* 0 = no zones, 1 = all zones, 2 = all zones only while in flight *)")
+        out.append(f"Definition {coq}_noneq_bypass : bool := {'true' if bypass else 'false'}. (* operator other than = : all zones, pruner not consulted *)")
+        for o in ops:
+            if o not in ("Neq", "In"):
+                raise Missing(f"{rel}: arm {variant}: None fallback for operator {o} is not modelled")
+        out.append(f"Definition {coq}_none_neq_all : bool := {'true' if 'Neq' in ops else 'false'}. (* pruner said None and the operator is != : all zones *)")
+        out.append(f"Definition {coq}_none_in_all : bool := {'true' if 'In' in ops else 'false'}.")
